@@ -12,14 +12,17 @@ class Model(object):
         self.opts = opts or {}
     def __repr__(self): return 'Model(%s)' % self.name
 
-def _rel_model(rel, req=False, cascade=None, uniq=True, inherit=False, ckey=False, pk='int', lazy=False, volatile=False):
+def _rel_model(rel, req=False, cascade=None, uniq=True, inherit=False, ckey=False, pk='int', lazy=False, volatile=False,
+               np='default', lazy_rel=False):
     name = rel + ('-req' if req else '') + ({None: '', True: '-casc', False: '-nocasc'}[cascade]) \
            + ('-inh' if inherit else '') + ('-ckey' if ckey else '') + ('-' + pk if pk != 'int' else '') \
-           + ('-lazy' if lazy else '')
+           + ('-lazy' if lazy else '') + ('-lazyrel' if lazy_rel else '') + ('' if np == 'default' else '-np%s' % np)
     def define(db):
         from pony.orm import PrimaryKey, Required, Optional, Set, composite_key
         ck = {} if cascade is None else dict(cascade_delete=cascade)
         lz = dict(lazy=True) if lazy else {}
+        lr = dict(lazy=True) if lazy_rel else {}
+        if np != 'default': ck = dict(ck, nplus1_threshold=np)
         a = {}
         if pk == 'int': a['id'] = PrimaryKey(int)
         elif pk == 'auto': a['id'] = PrimaryKey(int, auto=True)
@@ -30,17 +33,17 @@ def _rel_model(rel, req=False, cascade=None, uniq=True, inherit=False, ckey=Fals
             a['_ck'] = None
         b = None
         if rel == 'o2m':
-            a['bs'] = Set('B', **ck); b = dict(a=(Required if req else Optional)('A'))
+            a['bs'] = Set('B', **ck); b = dict(a=(Required if req else Optional)('A', **lr))
         elif rel == 'o2o':
-            a['b'] = Optional('B', **ck); b = dict(a=(Required if req else Optional)('A'))
+            a['b'] = Optional('B', **{k: v for k, v in ck.items() if k != 'nplus1_threshold'}); b = dict(a=(Required if req else Optional)('A', **lr))
         elif rel == 'm2m':
-            a['bs'] = Set('B'); b = dict(aa=Set('A'))
+            a['bs'] = Set('B', **({} if np == 'default' else dict(nplus1_threshold=np))); b = dict(aa=Set('A', **({} if np == 'default' else dict(nplus1_threshold=np))))
         elif rel == 'sym_o2o':
-            a['peer'] = Optional('A', reverse='peer')
+            a['peer'] = Optional('A', reverse='peer', **lr)
         elif rel == 'sym_m2m':
-            a['friends'] = Set('A', reverse='friends')
+            a['friends'] = Set('A', reverse='friends', **({} if np == 'default' else dict(nplus1_threshold=np)))
         elif rel == 'self_o2m':
-            a['parent'] = Optional('A', reverse='kids'); a['kids'] = Set('A', reverse='parent', **ck)
+            a['parent'] = Optional('A', reverse='kids', **lr); a['kids'] = Set('A', reverse='parent', **ck)
         elif rel == 'none':
             pass
         else: raise AssertionError(rel)
@@ -97,7 +100,9 @@ def _rel_model(rel, req=False, cascade=None, uniq=True, inherit=False, ckey=Fals
             from pony.orm import flush
             flush(); a2.parent = a1
     return Model(name, define, populate, tags=[rel] + (['inherit'] if inherit else []) + (['ckey'] if ckey else []),
-                 opts=dict(rel=rel, req=req, cascade=cascade, uniq=uniq, inherit=inherit, ckey=ckey, pk=pk, lazy=lazy))
+                 opts=dict(rel=rel, req=req, cascade=cascade, uniq=uniq, inherit=inherit, ckey=ckey, pk=pk, lazy=lazy, np=np, lazy_rel=lazy_rel))
+
+make = _rel_model
 
 def catalogue(tier='quick'):
     """Model list. quick: one representative per relationship kind and option that changes code
